@@ -231,7 +231,7 @@ func pairsExhaustive(c *mon.Ctx) {
 }
 
 func pairsRandom(c *mon.Ctx) {
-	c.Cases("pairs-random", c.N(8000, 80000), func(k *mon.Case) {
+	c.Cases("pairs-random", c.N(8000, 50000), func(k *mon.Case) {
 		r := k.R
 		for i := 0; i < 1000; i++ {
 			a := &ph{randU32(r), randU32(r), randU32(r), genA}
@@ -279,7 +279,7 @@ type simGen struct {
 }
 
 func chainWindow(c *mon.Ctx) {
-	c.Cases("chain-window", c.N(24000, 240000), func(k *mon.Case) {
+	c.Cases("chain-window", c.N(24000, 150000), func(k *mon.Case) {
 		r := k.R
 		batch := 1 + r.Intn(5)
 		window := 3 * batch
@@ -667,7 +667,7 @@ func b2i(b bool) int {
 }
 
 func forkChoiceEnum(c *mon.Ctx) {
-	c.Cases("forkchoice-enum", c.N(1600, 16000), func(k *mon.Case) {
+	c.Cases("forkchoice-enum", c.N(1600, 10000), func(k *mon.Case) {
 		sc := newSlotClock()
 		slot := validator.NewBlockSlot(sc.genesis, blockTime)
 		for _, tip := range tipVariants(k.R, sc) {
@@ -708,7 +708,7 @@ func forkChoiceEnum(c *mon.Ctx) {
 // HeaderHasPriority
 
 func priority(c *mon.Ctx) {
-	c.Cases("priority", c.N(8000, 80000), func(k *mon.Case) {
+	c.Cases("priority", c.N(8000, 50000), func(k *mon.Case) {
 		r := k.R
 		for i := 0; i < 500; i++ {
 			k.Eval(1)
@@ -762,7 +762,7 @@ func priority(c *mon.Ctx) {
 // Executer.process branch order and Executer.Synced on a real Executer.
 
 func executerOrder(c *mon.Ctx) {
-	c.Cases("executer", c.N(1600, 16000), func(k *mon.Case) {
+	c.Cases("executer", c.N(1600, 10000), func(k *mon.Case) {
 		sc := newSlotClock()
 		// (Chain.PrepareCache loads heights below a non-zero genesis height, so the node starts at 0)
 		g0 := uint32(0)
